@@ -15,8 +15,8 @@ SPVERIF_FAULT=<point> makes exactly one effect of scriptplan/cli/plan.py fail (D
   engineNoOutput run_scriptplan returns (True, None) without writing anything
   readReport     open(primary_output) in report()                   raises OSError(EIO)
   echo           click.echo(report_content) in report()             raises OSError(ENOSPC)
-Call sites are recognised by the *calling frame* (file scriptplan/cli/plan.py, function name), so the
-same injection works on the pinned and on the patched source.
+Effects are recognised by the calling FILE (scriptplan/cli/plan.py) and by what is opened / created (mode, name prefix), not
+by function names, so the same injection works on the pinned source, on the patched source and on a refactored plan.py.
 
 SPVERIF_JITTER=<seed> sleeps a few random milliseconds around temp-file calls to diversify the
 interleavings of concurrent runs.
@@ -98,7 +98,7 @@ if _FAULT or _JITTER:
 
             def echo(message=None, file=None, nl=True, err=False, color=None):
                 inplan, fn = _caller()
-                if inplan and fn == "report" and not err and file is None:
+                if inplan and not err and file is None:
                     raise _enospc("echo")
                 return real_echo(message, file=file, nl=nl, err=err, color=color)
             click.echo = echo
@@ -138,11 +138,14 @@ if _FAULT or _JITTER:
         if _FAULT in ("readInput", "copyRead", "readReport"):
             inplan, fn = _caller()
             if inplan:
-                if _FAULT == "readInput" and fn == "report" and mode == "rb":
+                # the effect is recognised by WHAT is opened (and that plan.py opens it), not by the name of the function that
+                # does it: the binary read of the input (hashing), the text read of the input (copy into the auto file), the
+                # text read of the generated report - a refactoring of plan.py into helpers keeps the fault points
+                if _FAULT == "readInput" and mode == "rb":
                     raise PermissionError(errno.EACCES, "Permission denied (injected)", str(file))
-                if _FAULT == "copyRead" and fn == "create_auto_report_file" and mode == "r":
+                if _FAULT == "copyRead" and mode == "r" and "plan_output_" not in str(file):
                     raise PermissionError(errno.EACCES, "Permission denied (injected)", str(file))
-                if _FAULT == "readReport" and fn == "report" and mode == "r" and "plan_output_" in str(file):
+                if _FAULT == "readReport" and mode == "r" and "plan_output_" in str(file):
                     raise OSError(errno.EIO, "Input/output error (injected)", str(file))
         return _real_open(file, mode, *a, **k)
 
